@@ -16,6 +16,20 @@ func C01_History_Writes() {
 	vStartHist(cfg).run()
 }
 
+var _ = vReg("C01_Backends", C01_Backends)
+
+// C01_Backends: the same answers over the prefix-namespaced backend (prefix ending in 0xFF, foreign
+// keys below, inside-looking and above the namespace) as over the plain store.
+func C01_Backends() {
+	cfg := &vHistCfg{name: "C01_Backends", nKeys: 2, lenVars: 1, valVars: 1, maxOps: 4,
+		ops:    []string{"set", "remove", "commit", "prune", "reopen"},
+		caches: []int{0}, fast: []bool{true, false}, thresh: []int{0, 101}, auditOld: true, backends: 2}
+	if vTier() == "thorough" {
+		cfg.maxOps = 5
+	}
+	vStartHist(cfg).run()
+}
+
 // C01_History_Prune: build up to V versions (each with 0..W writes), then DeleteVersionsTo(n)
 // for every n, optionally reopen, optionally a second deletion; audit every retained version.
 func C01_History_Prune() {
